@@ -711,6 +711,17 @@ func TestCheck(t *testing.T) {
 		"MAX_EXTRA_DATA_BYTES and BYTES_PER_LOGS_BLOOM are compile-time constants of the library and are not varied",
 		"encoding/json and gopkg.in/yaml.v3 are correct")
 	replay := func(raw json.RawMessage) *report.Failure {
+		var kp struct {
+			Kind string `json:"kind"`
+		}
+		json.Unmarshal(raw, &kp)
+		if kp.Kind == "big" {
+			var bc BigCase
+			if err := json.Unmarshal(raw, &bc); err != nil {
+				return report.Failf("harness", "bad case: %v", err)
+			}
+			return runBig(r, &bc)
+		}
 		var c Case
 		if err := json.Unmarshal(raw, &c); err != nil {
 			return report.Failf("harness", "bad case: %v", err)
@@ -837,6 +848,15 @@ func TestCheck(t *testing.T) {
 	}
 
 	pair := 0
+	for _, bt := range bigTypes {
+		r.Mandatory("big-list:" + bt.name)
+	}
+	if !r.Search(t, "big-lists", 900000, r.N(64, 400), func(rt *rapid.T) (any, *report.Failure) {
+		c := genBig(rt)
+		return c, runBig(r, c)
+	}) {
+		return
+	}
 	only := os.Getenv("VERIF_C04_ONLY") // development aid: substring filter on the type name
 	for ti, typ := range types {
 		if only != "" && !strings.Contains(typ, only) {
